@@ -172,6 +172,13 @@ func genIndexSpec(t *rapid.T, m *Model, name string) (IndexSpec, bool) {
 		return IndexSpec{}, false
 	}
 	ci := cols[rapid.IntRange(0, len(cols)-1).Draw(t, "ix-col")]
+	// favour columns whose merge function changes the length (the index must see the final value)
+	for _, c := range cols {
+		if mergeChangesLen(m.Sch.Cols[c].Kind, m.Sch.Cols[c].Merge) && rapid.IntRange(0, 2).Draw(t, "ix-on-lenmerge") == 0 {
+			ci = c
+			break
+		}
+	}
 	k := m.Sch.Cols[ci].Kind
 	ix := IndexSpec{Name: name, Col: ci}
 	switch {
